@@ -45,8 +45,10 @@ class _FixedBatches:
 
     batches = None
 
+    start = 0
+
     def __init__(self, datasets=None, batch_size=None, seed=None):
-        self.b = list(type(self).batches)
+        self.b = list(type(self).batches)[type(self).start :]
 
     def __iter__(self):
         return iter(self.b)
@@ -60,6 +62,7 @@ def make_engine_class():
     from direct.engine import DoIterationOutput, Engine
 
     class TinyEngine(Engine):
+        lazy = False
         kill_at = None  # raise ProcessKilledException inside the iteration whose batch index equals kill_at
         seen = None
 
@@ -88,6 +91,11 @@ def make_engine_class():
 
         def log_first_training_example_and_model(self, data):
             pass
+
+        def training_loop(self, training_datasets, start_iter, *a, **k):
+            # the loader of a resumed run is given the batches of the iterations it is about to perform
+            _FixedBatches.start = start_iter if type(self).lazy else 0
+            return super().training_loop(training_datasets, start_iter, *a, **k)
 
     return TinyEngine
 
@@ -126,7 +134,7 @@ def make_cfg(num_iterations, gradient_steps=1, gradient_clipping=0.0, checkpoint
     return cfg
 
 
-def train(exp_dir, grads, batches, num_iterations, k=1, clip=0.0, lr=0.5, opt="sgd", sched=None, resume=False, kill_at=None, w0=0.0, checkpoint_steps=10**9, seen=None, momentum=0.0):
+def train(exp_dir, grads, batches, num_iterations, k=1, clip=0.0, lr=0.5, opt="sgd", sched=None, resume=False, kill_at=None, w0=0.0, checkpoint_steps=10**9, seen=None, momentum=0.0, lazy_batches=False):
     """Run Engine.train once. Returns dict(w, lr_last_epoch, exited, lrs).
 
     sched: None -> LambdaLR with factor 2^-(epoch // 3); or a callable (optimizer) -> scheduler.
@@ -159,6 +167,8 @@ def train(exp_dir, grads, batches, num_iterations, k=1, clip=0.0, lr=0.5, opt="s
     old = E.ConcatDatasetBatchSampler
     E.ConcatDatasetBatchSampler = _FixedBatches
     TinyEngine.kill_at = kill_at
+    TinyEngine.lazy = lazy_batches
+    _FixedBatches.start = 0
     TinyEngine.seen = seen
     exited = None
     try:
